@@ -52,6 +52,7 @@ var c10Defs = []string{
 	"walk = (a) -> {\nr = []\nfor e <- elems(a) {\nr = r + [e]\nq = a[0:1] + [e]\n}\nr\n}",
 	"pairs = (a) -> {\nr = []\nfor i, e <- indices(a), elems(a) {\nr = r + [[i, e]]\n}\nr\n}",
 	"grow = (a, n) -> {\ni = 0\nwhile i < n {\na = a + [i]\ni = i + 1\n}\na\n}",
+	"joinall = (a) -> {\nr = \"\"\nfor e <- elems(a) {\nr = r + toa(e) + \";\"\n}\nr\n}",
 }
 
 func (C10) Run(tp *tape.Tape) core.Result {
@@ -67,7 +68,8 @@ func (C10) Run(tp *tape.Tape) core.Result {
 	shared := false
 	litStr := tp.Bool()
 
-	render := func(name string) string { return s.Mem.LookUpGlobal(name).String() }
+	// renderings are cloned: a snapshot must never alias storage the interpreter could reuse
+	render := func(name string) string { return strings.Clone(s.Mem.LookUpGlobal(name).String()) }
 	length := func(name string) int {
 		v := s.Mem.LookUpGlobal(name)
 		if a, ok := v.ToArray(); ok {
@@ -89,13 +91,13 @@ func (C10) Run(tp *tape.Tape) core.Result {
 			}
 		}
 		for i, want := range dsSnap {
-			if got := s.DS[i].String(); got != want {
+			if got := strings.Clone(s.DS[i].String()); got != want {
 				r.Violation = &core.Violation{Clause: "constant-changed", Detail: fmt.Sprintf("after %q data segment entry %d (a program constant) renders %s, it was %s", trunc(src, 80), i, trunc(got, 120), trunc(want, 120)), History: h}
 				return true
 			}
 		}
 		for i := len(dsSnap); i < len(s.DS); i++ {
-			dsSnap = append(dsSnap, s.DS[i].String())
+			dsSnap = append(dsSnap, strings.Clone(s.DS[i].String()))
 		}
 		return false
 	}
@@ -190,7 +192,27 @@ func (C10) Run(tp *tape.Tape) core.Result {
 			a := pick('a')
 			st := pick('s')
 			v := fresh()
-			switch tp.Draw(22) {
+			switch tp.Draw(27) {
+			case 22, 23: // the text of a live array kept as a string (toa builds it; later renderings must not touch it)
+				if submit(fmt.Sprintf("%s = toa(%s)", v, a), v, 's', false) {
+					goto done
+				}
+				r.Inc("rendering_kept_as_string", 1)
+			case 24: // slice of a kept rendering, and a rendering of a rendering
+				l := length(st)
+				lo := tp.Draw(l + 1)
+				hi := lo + tp.Draw(l-lo+1)
+				if submit(fmt.Sprintf("%s = %s[%d:%d]", v, st, lo, hi), v, 's', false) {
+					goto done
+				}
+			case 25: // strings built by concatenation in a loop, from renderings
+				if submit(fmt.Sprintf("%s = joinall(%s)", v, a), v, 's', false) {
+					goto done
+				}
+			case 26: // written output must not disturb kept values either
+				if submit(fmt.Sprintf("write(%s)", a), "", 0, false) || submit(fmt.Sprintf("%s = toa([%s, \"%s\"])", v, a, "q"), v, 's', false) {
+					goto done
+				}
 			case 0:
 				n := tp.Draw(5)
 				el := make([]string, n)
